@@ -70,7 +70,7 @@ CHECKS = {
             "explicit hand-off per token pull); outcomes and pulled-token streams compared with fresh instances and "
             "with the spec outcome; hash-seed x import-order configurations in fresh subprocesses",
             "Exhaustive within bounds: all sequential histories of <=2 (thorough 3) calls over 3 instance pairings x 16 "
-            "probes (31 now), each history also replayed after a rewriter construction that fails half-way on the same "
+            "probes (34 now), each history also replayed after a rewriter construction that fails half-way on the same "
             "instances; outcomes include the error message and every further error attribute; all schedules of 2 interleaved "
             "calls with <=2 (thorough 3) switches over 7 (11) probes (quick replays a seeded sample of 6000 schedules); "
             "4 import orders x up to 4 hash seeds.",
